@@ -940,6 +940,14 @@ def pretty_print_merge_decision(base, decision, config=DefaultConfig):
         if diff:
             config.out.write("%s%s%s:%s\n" % (
                 config.INFO.replace("##", "---"), dkey, note, config.RESET))
+            if dkey == "similar_insert":
+                # This diff leads from the locally inserted item to the
+                # similar remotely inserted one, it does not apply to base:
+                inserted = decision.local_diff[0]
+                for e, item in zip(diff, inserted.valuelist):
+                    pretty_print_diff(
+                        item, e.diff, "%s/%s" % (path, inserted.key), config)
+                continue
             value = base
             for i, k in enumerate(decision.common_path):
                 if isinstance(value, str):
